@@ -196,6 +196,14 @@ func c14Keys(c *Ctx) {
 	check([]cParam{{"c", "e2"}, {"s", "a"}})
 	check([]cParam{{"s", casbin.NewEnforceContext("").GetCacheKey()}, {"s", "a"}})
 	check([]cParam{{"x", ""}, {"s", "a"}})
+	// a tuple whose later value cannot be cached, then cacheable tuples: whatever the key function wrote before it
+	// gave up must not leak into the next key (repeated: pooled state may or may not be handed back)
+	for rep := 0; rep < 8; rep++ {
+		check([]cParam{{"s", "bob"}, {"x", ""}, {"s", "write"}})
+		check([]cParam{{"s", "bob"}, {"s", "data2"}, {"s", "write"}})
+		check([]cParam{{"s", "a"}, {"s", "b"}, {"x", ""}})
+		check([]cParam{{"s", "b"}})
+	}
 }
 
 // scripted lifetime scenarios (real time): a decision cached under a positive lifetime must not be served
